@@ -298,6 +298,11 @@ def c02_steps(case, check04=True, check06=True):
             try:
                 s.DoGlobalIteration(1)
             except Exception as e:
+                if 'injected failure' in str(e) or 'objective undefined' in str(e):
+                    # the objective failed: nothing was evaluated or recorded; the caller goes on and the NEXT trial must again be
+                    # placed by the rule on the full partition
+                    stats['failures'] = stats.get('failures', 0) + 1
+                    continue
                 stats['guard'] = str(e)
                 break
         stats['steps'] += 1
@@ -551,7 +556,11 @@ def c17_history(case):
             continue
         fresh = Evolvent(lo, hi, n, m)
         if op[0] == 'img':
-            got = ev.GetImage(op[1]); exp = fresh.GetImage(op[1])
+            import numpy as np
+            xarg = np.array(op[1], dtype=np.double) if k % 3 == 1 else op[1]      # every third query passes x as a (mutable) 0-d array
+            got = ev.GetImage(xarg); exp = fresh.GetImage(op[1])
+            if float(xarg) != float(op[1]):
+                fails.append('op %d GetImage(x) changed its argument: x was %r (a 0-d array), is %r afterwards' % (k, op[1], float(xarg))); break
             if list(got) != list(exp):
                 fails.append('op %d GetImage(%r)=%r on a used object, %r on a fresh one' % (k, op[1], list(got), list(exp))); break
             kept.append((got, [float(v) for v in got], k))
